@@ -469,7 +469,10 @@ func mutateLeafrefs(rt *rapid.T, v *model.Variant, m *model.Node) string {
 	all := model.Instances(m, nil, model.InstOpts{AllAlts: true})
 	targets := leafrefTargets(v)
 	ops := []string{"dangle-leaf", "set-leaf", "leaflist", "key-entry", "inner-target", "remove-target", "move-leaf", "foreign"}
-	start := rapid.IntRange(0, len(ops)-1).Draw(rt, "op")
+	// weighted first choice (the rarely applicable "foreign" edit is tried first more often), then the
+	// remaining kinds in cyclic order until one applies
+	first := rapid.SampledFrom([]int{0, 0, 1, 1, 2, 3, 4, 5, 6, 7, 7, 7, 7}).Draw(rt, "op")
+	start := first
 	for k := 0; k < len(ops); k++ {
 		op := ops[(start+k)%len(ops)]
 		switch op {
@@ -479,6 +482,26 @@ func mutateLeafrefs(rt *rapid.T, v *model.Variant, m *model.Node) string {
 				if in.Alt == 0 && in.F.Kind == model.FLeaf && isLeafrefField(in.F) && !in.F.IsKey {
 					cs = append(cs, in)
 				}
+			}
+			if op == "foreign" {
+				// only leafrefs with a predicate can have values at the target schema node that are
+				// outside the selected node set
+				var ps []model.Inst
+				for _, in := range cs {
+					if !strings.Contains(in.F.Type.Leafref, "[") {
+						continue
+					}
+					tg := model.LeafrefTargets(all, in)
+					for _, o := range all {
+						if o.Alt == 0 && o.F.Entry == in.F.Type.Target && o.F.Kind == model.FLeaf {
+							if _, sel := tg[o.V.LooseCanon()]; !sel {
+								ps = append(ps, in)
+								break
+							}
+						}
+					}
+				}
+				cs = ps
 			}
 			if len(cs) == 0 {
 				continue
